@@ -189,7 +189,7 @@ def mesh_edges(faces):
 
 def ugrid(mesh='tq', *, start_index=0, fill='nan', transposed=False, with_edges=None,
           edge_dimension_attr=True, supply=(), node_x=None, node_y=None, face_xy=None,
-          data_vars=None, attrs=None, coords_as_coords=False, dtype='int32', edge_order=None, fill_value=None, edge_face_fill_first=False):
+          data_vars=None, attrs=None, coords_as_coords=False, dtype='int32', edge_order=None, fill_value=None, edge_face_fill_first=False, edge_marker=True):
     """UGRID 2-D mesh.
 
     fill: 'nan' (float connectivity with NaN, as xarray decodes _FillValue),
@@ -295,7 +295,7 @@ def ugrid(mesh='tq', *, start_index=0, fill='nan', transposed=False, with_edges=
     variables['mesh'] = xarray.DataArray(numpy.int32(0), attrs=mesh_attrs)
     ds = xarray.Dataset(data_vars={**variables, **(data_vars or {})}, coords=coords,
                         attrs=dict(attrs or {'Conventions': 'UGRID-1.0'}))
-    if with_edges and 'nedge' not in ds.sizes:
+    if with_edges and edge_marker and 'nedge' not in ds.sizes:
         # give the declared edge dimension a size through a data variable
         ds['edge_marker'] = (('nedge',), numpy.arange(ne, dtype=float))
     return ds
